@@ -23,8 +23,8 @@ from vt.oracles import csvwdate as CD
 
 ID = 'C16'
 TIERS = {
-    'quick': dict(shards=16, tables=40, grid_share=1, watchdog_s=900),
-    'thorough': dict(shards=16, tables=1500, grid_share=3, watchdog_s=7000),
+    'quick': dict(shards=16, tables=400, grid_share=1, watchdog_s=900),
+    'thorough': dict(shards=16, tables=8000, grid_share=3, watchdog_s=7000),
 }
 RULE = ('part A: the full grid of %d date/date-time patterns (d dd M MM yy yyyy x separators - / . space x 3 field orders, '
         'x time parts HH mm ss S SS SSS with : or . and space/T joins) x 4 instants, one CSV + metadata + csv2pandas load '
